@@ -9,19 +9,22 @@ META = dict(
     text="WaitNext.tla (PlusCal) models node::WaitAndCreateNewBlock with one label per critical section (the wait on the kernel notifications' tip-block "
          "condition variable with its predicate and the consumption of the interrupt flag; the section under cs_main with the 20-minute min-difficulty rule, "
          "CreateNewBlock and the fee comparison; the deadline test) against a driver thread whose operations are block connection (chain tip first, then "
-         "the blockTip notification, both under cs_main), a fee-paying mempool addition, interruptWait and mock-clock advances. TLC checks on every "
-         "interleaving and for every timeout / fee threshold / tip age of the configuration: a returned template is built on the tip that is current when "
-         "it is built and never on a tip older than the one whose notification ended the wait; a template on the previous template's parent has fees >= "
-         "previous fees + threshold or the tip is over 20 minutes old; nothing is returned only after the timeout passed or after an interrupt; and, under "
-         "weak fairness of both threads, a tip change leads to a return. The same run prints, for every terminal state, the harness-visible log (call "
-         "start, completion of each driver operation, return with parent and fees): the set of (schedule, outcome) pairs the design admits. The real "
-         "interfaces::BlockTemplate::waitNext is then called on a regtest node from a waiter thread while a driver thread performs seeded schedules "
-         "(real blocks through ProcessNewBlock, real transactions through ProcessTransaction, interruptWait, SetMockTime) under seeded random delays, "
-         "with a global order on call start / return / operation completions; every logged (schedule, outcome) must be in TLC's set.",
+         "the blockTip notification, both under cs_main), a fee-paying mempool addition, interruptWait and mock-clock advances; optionally the caller calls "
+         "again on the same template object. TLC checks on every interleaving and for every timeout / fee threshold / tip age of the configuration: a "
+         "returned template is built on the tip that is current when it is built and never on a tip older than the one whose notification ended the wait; a "
+         "template on the previous template's parent has fees >= previous fees + threshold or the tip is over 20 minutes old; nothing is returned only after "
+         "the timeout passed or after an interrupt; and, under weak fairness of both threads, a tip change leads to a return. The model is permissive where "
+         "the property is silent (when the fee / 20-minute check runs and with which clock reading, whether a pending interrupt or a pending tip change wins); "
+         "the strict variant (exactly the code's choices) refines it. The same TLC run prints, for every terminal state, the harness-visible log (call start, "
+         "completion of each driver operation, return with parent and fees): the set of (schedule, outcome) pairs the promise admits. The real "
+         "interfaces::BlockTemplate::waitNext is then called on a regtest node from a waiter thread while a driver thread performs seeded schedules (real "
+         "blocks through ProcessNewBlock, real transactions through ProcessTransaction, interruptWait, SetMockTime) under seeded random delays, with a "
+         "global order on call start / return / operation completions; every logged (schedule, outcome) must be in TLC's set.",
     note="Real thread interleavings are sampled (seeded delays), the model's are exhaustive. A rejection is reported only if it repeats when the same "
          "schedule and seeds are re-run. Mock clock advances are followed by a notify_all on the condition variable (a spurious wake-up) so that the waiter "
-         "looks at the mock clock at once. Invalidating the tip while a call is in flight is outside the property's quantifier and outside the schedules "
-         "(MC_invalidate.cfg shows what the design then admits). Node shutdown (chainman.m_interrupt) is not modelled.",
+         "looks at the mock clock at once. A call that returns later than it should is not observable in an asynchronous setting: the liveness clause is decided "
+         "on the model only. Invalidating the tip while a call is in flight is outside the property's quantifier and outside the schedules "
+         "(MC_invalidate.cfg records what the design then admits). Node shutdown (chainman.m_interrupt) is not modelled.",
     technique="PlusCal/TLA+ spec of waitNext against tip changes, mempool additions, interrupts and clock ticks; TLC safety + liveness; TLC-enumerated outcome set vs "
               "outcomes of the real waitNext under seeded schedules",
 )
@@ -163,7 +166,7 @@ def run(ctx):
         P = run_config(ctx, binary, cfg, nruns, rng, obs_kinds)
         maxops = max(maxops, P["maxops"])
     ctx.extra["observed_returns_by_kind"] = dict(obs_kinds)
-    if len(obs_kinds) < 3:
+    if len(obs_kinds) < 3 and not ctx.violations:
         raise vflib.InfraError("vacuity: the real runs never produced %s" % (set(KINDS) - set(obs_kinds)))
     # ---- liveness under weak fairness (no final interrupt: the return must come from the tip change)
     ctx.tlc(SPEC, SPEC, "Live_q.cfg" if quick else "Live_t.cfg", name="liveness", xmx="12g", timeout=5000, emit=False)
